@@ -220,6 +220,9 @@ def run_case(case):
                 j = (i + 1) % len(labels)
                 if j != i:
                     variants.append(("duplicate", labels[:i] + [labels[j]] + labels[i + 1:]))
+                    # the same function named twice, once with and once without the minus sign
+                    flipped = labels[j][1:] if labels[j].startswith("-") else "-" + labels[j]
+                    variants.append(("duplicate", labels[:i] + [flipped] + labels[i + 1:]))
                 variants.append(("foreign", labels[:i] + [foreign] + labels[i + 1:]))
             for what, bad in variants:
                 if sorted(_split(x)[1] for x in bad) == sorted(_split(x)[1] for x in labels):
